@@ -96,6 +96,10 @@ def c18_3(ctx: Ctx):
     ctx.check(kinds == {"Branch", "Call"}, ro, t, "moved edge kinds are exactly {Branch, Call}", f"moved kinds are {sorted(kinds)}: fallthrough/return edges do not come from the operand")
     conj = [src(v) for v in t.values] if isinstance(t, ast.BoolOp) and isinstance(t.op, ast.And) else []
     ctx.check("edge.target is sym.referent" in conj, ro, t, "only edges that lead to the old symbol's referent", f"filter is {conj}")
+    allowed = {"edge.target is sym.referent", "edge.label"}
+    extra = [c for c in conj if c not in allowed and not c.startswith("edge.label.type in")]
+    ctx.check(not extra, ro, t, "no further condition narrows which Branch/Call edges follow the operand",
+              f"additional condition(s) {extra}: edges that fail them (e.g. indirect `call *sym@GOTPCREL(%rip)` edges) stay on the old referent although the operand now names the new symbol")
     ue = [c for c in calls_in(ro.node) if src(c.func) == "update_edge"]
     ok = len(ue) == 1 and [src(a) for a in ue[0].args] == ["edge", "module.ir.cfg"] and [(k.arg, src(k.value)) for k in ue[0].keywords] == [("target", "retarget.referent")]
     ctx.check(ok, ro, ue[0] if ue else ro.node, "the edge keeps its source/label and gets B's referent as target", "edge update changed")
@@ -174,3 +178,68 @@ def c18_4(ctx: Ctx):
     ctx.check(ok, fi, rets[0] if rets else fi.node, "result is SymAddrConst(same addend, B, converted attributes)", "result construction changed")
     gr = repo.func("abi._SymExprAttributeRule.get_relevant_attrs")
     ctx.check("return self.internal_attrs if internal else self.external_attrs" in src(gr.node), gr, gr.node, "internal -> internal_attrs, external -> external_attrs", "swapped")
+
+
+def _rule_tuples(fn: ast.FunctionDef):
+    """return (...) statements of _sym_expr_rules -> list of lists of (internal, external, access) sets"""
+    out = []
+    for n in ast.walk(fn):
+        if isinstance(n, ast.Return) and isinstance(n.value, ast.Tuple):
+            rules = []
+            for e in n.value.elts:
+                if isinstance(e, ast.Call) and src(e.func) == "_SymExprAttributeRule":
+                    kw = {k.arg: k.value for k in e.keywords}
+
+                    def names(v):
+                        if v is None:
+                            return None
+                        if isinstance(v, ast.Call) and src(v.func) == "set" and not v.args:
+                            return frozenset()
+                        if isinstance(v, ast.Set):
+                            return frozenset(src(x).split(".")[-1] for x in v.elts)
+                        return None
+
+                    acc = names(kw.get("access_types"))
+                    rules.append((names(kw.get("internal_attrs")), names(kw.get("external_attrs")), acc if acc is not None else frozenset({"CONTROL_FLOW", "CODE_REF", "DATA"}), e))
+            out.append((n, rules))
+    return out
+
+
+# x86-64 / AArch64 ELF PIC conventions for a symbol that turns external (psABI): calls through the PLT,
+# code references through the GOT.
+SPEC_RULES = {
+    ("_X86_64_ELF", "pie"): {(frozenset(), frozenset({"GOT", "PCREL"}), frozenset({"CODE_REF"})), (frozenset(), frozenset({"PLT"}), frozenset({"CONTROL_FLOW"}))},
+    ("_X86_64_ELF", "nonpie"): {(frozenset(), frozenset({"PLT"}), frozenset({"CONTROL_FLOW", "CODE_REF"}))},
+    ("_ARM64_ELF", "pie"): {(frozenset({"LO12"}), frozenset({"LO12", "GOT"}), frozenset({"CODE_REF"})), (frozenset(), frozenset({"GOT"}), frozenset({"CODE_REF"}))},
+    ("_ARM64_ELF", "nonpie"): set(),
+}
+
+
+@rule("C18.5", ["C18"], "each ABI's attribute-conversion rules are unambiguous and follow the platform's PIC conventions", 6)
+def c18_5(ctx: Ctx):
+    repo = ctx.repo
+    for cname in ("_X86_64_ELF", "_ARM64_ELF"):
+        m = repo.func(f"abi.{cname}._sym_expr_rules")
+        lin = linear(m.node)
+        groups = _rule_tuples(m.node)
+        if len(groups) != 2:
+            raise AnalysisError(f"{cname}._sym_expr_rules: expected a PIE and a non-PIE rule tuple, found {len(groups)}")
+        for ret, rules in groups:
+            g = lin.of(ret)
+            mode = "pie" if "_is_elf_pie" in f_show(g.guard) and not f_show(g.guard).startswith("not(") else "nonpie"
+            for i in range(len(rules)):
+                for j in range(i + 1, len(rules)):
+                    a, b = rules[i], rules[j]
+                    if None in (a[0], a[1], b[0], b[1]):
+                        raise AnalysisError(f"{cname}._sym_expr_rules: rule attributes are not literal sets")
+                    common = a[2] & b[2]
+                    amb = bool(common) and (a[0] == b[0] or a[1] == b[1])
+                    ctx.check(not amb, m, b[3], f"{cname} ({mode}): rules {i} and {j} cannot both match",
+                              f"rules {i} and {j} share access type(s) {sorted(common)} and the same "
+                              f"{'internal' if a[0] == b[0] else 'external'} attribute set: retargeting such an operand raises `multiple rules matched` "
+                              "instead of converting its attributes", key=f"C18.5::{cname}::{mode}::{i}{j}")
+            got = {(r[0], r[1], r[2]) for r in rules}
+            want = SPEC_RULES[(cname, mode)]
+            ctx.check(got == want, m, ret, f"{cname} ({mode}): rule set matches the platform convention",
+                      f"rules are {sorted((sorted(a), sorted(b), sorted(c)) for a, b, c in got)}; the platform convention is "
+                      f"{sorted((sorted(a), sorted(b), sorted(c)) for a, b, c in want)}", key=f"C18.5::{cname}::{mode}::table")
